@@ -540,13 +540,13 @@ def opaque(name):
 class Source:
     """reads the real sources from REPO on every run; records hashes of the functions put under contract."""
     def __init__(self, edits=None):
-        self.functions = []; self.edits = edits or []
+        self.functions = []; self.edits = edits or []; self.applied = set()
         self._cache = {}
     def text(self, rel):
         if rel not in self._cache:
             t = open(os.path.join(REPO, rel)).read()
-            for a, b in self.edits:
-                if a in t: t = t.replace(a, b)
+            for i, (a, b) in enumerate(self.edits):
+                if a in t: t = t.replace(a, b); self.applied.add(i)
             self._cache[rel] = t
         return self._cache[rel]
     def tree(self, rel): return ast.parse(self.text(rel))
